@@ -78,10 +78,13 @@ type State struct {
 	heap  map[string]string
 	ghost map[string]string
 	dead  bool
+	// epoch: set when the whole heap was havocked (a callee without a frame, a loop that may write anything).
+	// Components that are first read afterwards get a symbol of that epoch, not their initial value.
+	epoch string
 }
 
 func (s *State) clone() *State {
-	n := &State{pc: s.pc, cells: make(map[*ssa.Alloc]Value, len(s.cells)), heap: make(map[string]string, len(s.heap)), ghost: make(map[string]string, len(s.ghost))}
+	n := &State{pc: s.pc, epoch: s.epoch, cells: make(map[*ssa.Alloc]Value, len(s.cells)), heap: make(map[string]string, len(s.heap)), ghost: make(map[string]string, len(s.ghost))}
 	for k, v := range s.cells {
 		n.cells[k] = v
 	}
@@ -238,6 +241,9 @@ func (ex *Exec) heapGet(st *State, comp string, elemT types.Type) string {
 	ex.vc.heapT[comp] = heapComp{sort: es, typ: elemT, isArr: true}
 	n := "H0_" + mangle(comp)
 	ex.vc.declareConst(n, sx("Array", "Int", es))
+	if st.epoch != "" {
+		n = ex.initialCompIn(st, comp)
+	}
 	st.heap[comp] = n
 	return n
 }
@@ -256,6 +262,9 @@ func (ex *Exec) globalGet(st *State, g *ssa.Global) string {
 	ex.vc.heapT[comp] = heapComp{sort: es, typ: et}
 	n := "G0_" + mangle(relPkgPath(g.Pkg.Pkg)+"."+g.Name())
 	ex.vc.declareConst(n, es)
+	if st.epoch != "" && ex.prog.mutableGlobals[g] {
+		n = ex.initialCompIn(st, comp)
+	}
 	st.heap[comp] = n
 	ex.globalFacts(st, g, n, et)
 	return n
